@@ -194,6 +194,7 @@ class Run:
     exc = None
     temp = ()
     writes = 0
+    fault_last = False
 
 
 def impl_run(strategy, cfg, tc, file0, verdict, clock=(), exc_class=TestRaised, atom="line",
@@ -402,34 +403,23 @@ def impl_session(steps, exc_class=TestRaised, ext=".txt", watchdog=60.0):
             lith.testcase = testcase
             lith.condition_script = script
             before_count = lith.test_count
-            fault = {"k": step.get("write_fault"), "n": 0}
-            real_open = open
+            fault = {"k": step.get("write_fault"), "n": 0, "intended": None}
+            real_dump = tcs.Testcase.dump
 
-            def faulty_open(p, mode="r", *a, **kw):
-                f = real_open(p, mode, *a, **kw)
-                if "w" in mode and os.path.abspath(str(p)) == os.path.abspath(path):
+            def faulty_dump(self_, *a, **kw):
+                dpath = a[0] if a else kw.get("path")
+                target = self_.filename if dpath is None else str(dpath)
+                if os.path.abspath(str(target)) == os.path.abspath(path):
                     fault["n"] += 1
-                    if fault["k"] is not None and fault["n"] == fault["k"]:
-                        class Half:
-                            def __enter__(self_):
-                                return self_
-
-                            def __exit__(self_, *exc):
-                                f.close()
-                                return False
-
-                            def write(self_, data):
-                                f.write(bytes(data)[: max(1, len(data) // 2)])
-                                f.flush()
-                                raise OSError(28, "No space left on device (injected)")
-
-                            def writelines(self_, lines):
-                                for x in lines:
-                                    self_.write(x)
-                        return Half()
-                return f
+                    if fault["n"] == fault["k"]:
+                        data = self_.before + b"".join(self_.parts) + self_.after
+                        fault["intended"] = data
+                        with open(target, "wb") as fo:      # a torn write, then the error
+                            fo.write(data[: max(1, len(data) // 2)])
+                        raise OSError(28, "No space left on device (injected)")
+                return real_dump(self_, *a, **kw)
             if step.get("write_fault") is not None:
-                tcs.open = faulty_open
+                tcs.Testcase.dump = faulty_dump
             _watch.update(path=os.path.abspath(path), tmp=os.path.abspath(tmp), events=events)
             old_handler = signal.signal(signal.SIGALRM, _on_alarm)
             signal.setitimer(signal.ITIMER_REAL, watchdog)
@@ -441,7 +431,7 @@ def impl_session(steps, exc_class=TestRaised, ext=".txt", watchdog=60.0):
                     signal.signal(signal.SIGALRM, old_handler)
                     _watch.update(events=None)
                     if step.get("write_fault") is not None:
-                        del tcs.open
+                        tcs.Testcase.dump = real_dump
             except CapHit:
                 res.exc = "CapHit"
             except Hang:
@@ -453,6 +443,11 @@ def impl_session(steps, exc_class=TestRaised, ext=".txt", watchdog=60.0):
             res.final = Path(path).read_bytes() if os.path.exists(path) else b"<deleted>"
             res.seen, res.tests, res.events = script.seen, script.k, events
             res.writes = events.count("W")
+            # the injected fault hit the LAST write of the run and that write was (re)writing the last accepted version
+            # (the final / restoring dump itself): nothing can repair that
+            acc = [d for _, d, a in script.seen if a == "Y"]
+            res.fault_last = (fault["k"] is not None and fault["n"] <= fault["k"]
+                              and fault["intended"] == (acc[-1] if acc else step["file0"]))
             res.test_count = lith.test_count - before_count
             temp = []
             for f_ in sorted(os.listdir(tmp)):
